@@ -34,4 +34,370 @@ theorem C03_walk_encode (okRef : Bytes → Bool) (cf : Bool) (rs : List Rec)
   rw [this, walk_nil]
   simp
 
+example : recOK (fun _ => true) ⟨[98, 45, 99], [1, 2, 3]⟩ = true ∧
+    recOK (fun _ => false) ⟨[120, 120, 45, 48], [0]⟩ = true := by decide
+
+/-! ## reindex after a crash inside an append -/
+
+/-- **a torn header is ignored**: a pack of complete records followed by a strict prefix of the next
+record's header walks like the pack without it (old and repaired walker alike) -/
+theorem C03_reindex_torn_header (okRef : Bytes → Bool) (cf : Bool) (rs : List Rec) (r : Rec) (k : Nat)
+    (h : ∀ x ∈ rs, recOK okRef x = true) (hr : recOK okRef r = true)
+    (hk : k < (encodeHeader r.ref r.body.length).length) :
+    walkPack okRef cf (encodePack rs ++ (encodeRecord r).take k) = (entriesOf rs 0, none) := by
+  unfold walkPack
+  have hk' : k < (encodeRecord r).length := by simp [encodeRecord]; omega
+  rw [walk_encodePack okRef cf rs _ 0 _ h (by have := encodePack_length_ge rs; simp; omega),
+    walk_torn okRef cf _ _ r k hr hk' (Or.inr hk)]
+  simp
+
+/-- **a torn record is ignored** (repaired walker, finding F-C03-1 fixed): for EVERY strict prefix of the
+bytes an append adds – torn header or torn body – the rebuilt index is that of the pack before the
+append: no partial blob is listed -/
+theorem C03_reindex_torn_body (okRef : Bytes → Bool) (rs : List Rec) (r : Rec) (k : Nat)
+    (h : ∀ x ∈ rs, recOK okRef x = true) (hr : recOK okRef r = true) (hk : k < (encodeRecord r).length) :
+    walkPack okRef true (encodePack rs ++ (encodeRecord r).take k) = (entriesOf rs 0, none) := by
+  unfold walkPack
+  rw [walk_encodePack okRef true rs _ 0 _ h (by have := encodePack_length_ge rs; simp; omega),
+    walk_torn okRef true _ _ r k hr hk (Or.inl rfl)]
+  simp
+
+example : (3 : Nat) < (encodeRecord ⟨[98, 45, 99], [1, 2, 3]⟩).length := by decide
+
+/-- the walker before the repair reported a record with a torn body, with its full size (this is what
+made Reindex list a partial blob and Fetch serve a short body): header complete, 1 of 3 body bytes -/
+theorem C03_reindex_torn_body_counterexample :
+    walkPack (fun _ => true) false ((encodeRecord ⟨[98, 45, 99], [1, 2, 3]⟩).take 8) =
+      ([⟨some [98, 45, 99], 7, 3⟩], none) ∧
+    extent ((encodeRecord ⟨[98, 45, 99], [1, 2, 3]⟩).take 8) 7 3 = [1] := by decide
+
+/-- the completed append: the walker reports the new record after the old ones -/
+theorem C03_reindex_complete_append (okRef : Bytes → Bool) (cf : Bool) (rs : List Rec) (r : Rec)
+    (h : ∀ x ∈ rs, recOK okRef x = true) (hr : recOK okRef r = true) :
+    walkPack okRef cf (encodePack rs ++ encodeRecord r) =
+      (entriesOf rs 0 ++ [entryOf r (encodePack rs).length], none) := by
+  have e : encodePack rs ++ encodeRecord r = encodePack (rs ++ [r]) := by
+    rw [encodePack_append]; simp [encodePack]
+  rw [e, C03_walk_encode okRef cf (rs ++ [r]) (by
+    intro x hx
+    rcases List.mem_append.mp hx with hx | hx
+    · exact h x hx
+    · simp at hx; subst hx; exact hr)]
+  rw [entriesOf_append]
+  simp [entriesOf]
+
+/-- **append after a clean tail** keeps the pack parseable (this is the part of "reopen and go on" that
+holds: `openForWrite` seeks to the end, so the next record starts where the last complete one ended) -/
+theorem C03_append_after_torn_tail_partial (okRef : Bytes → Bool) (cf : Bool) (rs : List Rec) (r : Rec)
+    (h : ∀ x ∈ rs, recOK okRef x = true) (hr : recOK okRef r = true) :
+    (walkPack okRef cf (encodePack rs ++ encodeRecord r)).2 = none := by
+  rw [C03_reindex_complete_append okRef cf rs r h hr]
+
+/-- finding F-C03-2: a torn tail (`[b-c`, 4 bytes of a header) is not truncated at reopen; the next
+append lands behind it and the walker – hence Reindex – fails on the pack: the acknowledged blob
+`d-e` cannot be rebuilt from the pack files (`blob.Parse` is represented by "contains no `[`") -/
+theorem C03_append_after_torn_tail_counterexample :
+    walkPack (fun r => !r.contains 91) true ((encodeRecord ⟨[98, 45, 99], [1, 2, 3]⟩).take 4 ++ encodeRecord ⟨[100, 45, 101], [7]⟩) =
+      ([], some .badRef) ∧
+    reindexFrom (fun r => !r.contains 91) true 0
+      [(encodeRecord ⟨[98, 45, 99], [1, 2, 3]⟩).take 4 ++ encodeRecord ⟨[100, 45, 101], [7]⟩] [] = ([], false) := by
+  decide
+
+/-- **Reindex rebuilds exactly the complete live records**, whatever strict prefix of a further record
+a crash left at the end of the pack: the run succeeds; every row of the rebuilt index names a live
+complete record of the pack and its extent holds that record's complete body (nothing partial is
+presented); every live complete record has a row -/
+theorem C03_reindex_exact (okRef : Bytes → Bool) (rs : List Rec) (r : Rec) (k i : Nat)
+    (h : ∀ x ∈ rs, recOK okRef x = true) (hr : recOK okRef r = true) (hk : k < (encodeRecord r).length) :
+    (reindexFrom okRef true i [encodePack rs ++ (encodeRecord r).take k] []).2 = true ∧
+    (∀ ref m, (reindexFrom okRef true i [encodePack rs ++ (encodeRecord r).take k] []).1.get ref = some m →
+      m.file = i ∧ ∃ x ∈ rs, x.ref = ref ∧ isDeletedRef x.ref = false ∧ m.size = x.body.length ∧
+        extent (encodePack rs ++ (encodeRecord r).take k) m.offset m.size = x.body) ∧
+    (∀ x ∈ rs, isDeletedRef x.ref = false →
+      ((reindexFrom okRef true i [encodePack rs ++ (encodeRecord r).take k] []).1.get x.ref).isSome) := by
+  have hw := C03_reindex_torn_body okRef rs r k h hr hk
+  simp only [reindexFrom, hw]
+  refine ⟨rfl, ?_, ?_⟩
+  · intro ref m hm
+    rcases setEntries_get [] i _ ref m hm with ⟨e, he, href, hmeq⟩ | hnil
+    · obtain ⟨pre, x, post, hrs, hee⟩ := mem_entriesOf rs 0 e he
+      subst hmeq
+      refine ⟨rfl, x, by simp [hrs], ?_⟩
+      have hx : e.ref = if isDeletedRef x.ref then none else some x.ref := by rw [hee]; rfl
+      by_cases hd : isDeletedRef x.ref = true
+      · rw [hx, if_pos hd] at href; cases href
+      · rw [hx, if_neg hd] at href
+        injection href with href
+        refine ⟨href, by simpa using hd, by rw [hee]; rfl, ?_⟩
+        have := extent_entryOf pre x post ((encodeRecord r).take k)
+        rw [← hrs] at this
+        rw [hee]; exact this
+    · simp [Index.get] at hnil
+  · intro x hx hd
+    obtain ⟨pre, post, hrs⟩ := List.append_of_mem hx
+    have hmem := entryOf_mem_entriesOf pre x post 0
+    rw [← hrs] at hmem
+    exact setEntries_get_live [] i _ _ x.ref hmem (by simp [entryOf, hd])
+
+/-! ## with the index intact: crash states of an append -/
+
+/-- obligation on the regenerated order of `(*storage).append`: header, then body, then `Sync`, and only
+then (after the roll-over, if any) `index.Set`; nothing is written afterwards (the rollback
+`Seek`/`Truncate` on an index error only removes bytes) -/
+theorem C03_gen_append_effects : appSafe 0 false (Gen.dpAppendEffects.map (·.e)) = true := by decide
+
+/-- for EVERY effect order satisfying `appSafe`: at every crash prefix, if the index row has been written
+then header and body have been written AND synced in full; and never more than header + body is
+written -/
+theorem C03_append_row_only_after_sync (effs : List Eff) (h : appSafe 0 false effs = true)
+    (hl bl k : Nat) :
+    ((appRun hl bl (effs.take k)).row = true →
+      (appRun hl bl (effs.take k)).synced = hl + bl ∧ (appRun hl bl (effs.take k)).written = hl + bl) ∧
+    (appRun hl bl (effs.take k)).written ≤ hl + bl := by
+  have hr : AppRel hl bl 0 false ⟨0, 0, false, false⟩ := by simp [AppRel]
+  exact ⟨appSafe_prefix hl bl effs 0 false _ h hr k, appSafe_written_le hl bl effs 0 false _ h hr k⟩
+
+example : (appRun 7 3 ((Gen.dpAppendEffects.map (·.e)).take 3)) = ⟨10, 0, false, false⟩ ∧
+    (appRun 7 3 ((Gen.dpAppendEffects.map (·.e)).take 6)) = ⟨10, 10, true, true⟩ := by decide
+
+/-- in a store whose rows lie within their packs every fetch returns exactly `size` bytes: no reader of
+the index sees a short blob -/
+theorem C03_fetch_full_size (st : Store) (hb : InBounds st) (r : Bytes) (n : Nat) (b : Bytes)
+    (h : st.fetch r = .ok n b) : b.length = n := by
+  unfold Store.fetch at h
+  cases hm : st.index.get r with
+  | none => simp [hm] at h
+  | some m =>
+    obtain ⟨p, hp, hle⟩ := hb r m hm
+    simp only [hm, hp] at h
+    injection h with h1 h2
+    subst h1 h2
+    exact extent_length_eq p _ _ hle
+
+/-- **crash before the row is written**: whatever prefix of the added bytes reached the pack (torn header,
+torn body, everything) and whether or not the next pack file was created, every reader of the index
+sees exactly what it saw before the append; the store stays in bounds -/
+theorem C03_index_intact_crash_safe (st : Store) (hne : st.packs ≠ []) (hb : InBounds st)
+    (ref body : Bytes) (keep : Nat) (np : Bool) :
+    (st.crashAppend ref body keep np false).index = st.index ∧
+    (∀ r, (st.crashAppend ref body keep np false).fetch r = st.fetch r) ∧
+    (∀ r, (st.crashAppend ref body keep np false).stat r = st.stat r) ∧
+    InBounds (st.crashAppend ref body keep np false) := by
+  have hidx : (st.crashAppend ref body keep np false).index = st.index := by simp [Store.crashAppend]
+  have hg := crashAppend_grows st hne ref body keep np false
+  refine ⟨hidx, fun r => fetch_of_grows st _ r (by rw [hidx]) hg hb, fun r => by simp [Store.stat, hidx],
+    inBounds_of_grows st _ hidx hg hb⟩
+
+/-- **crash after the row is written** (so, by the effect order, all added bytes are on disk): the new blob
+is served complete, every other blob as before; the store stays in bounds -/
+theorem C03_index_row_written (st : Store) (hne : st.packs ≠ []) (hb : InBounds st)
+    (ref body : Bytes) (keep : Nat) (np : Bool) (hk : (appendBytes ref body).length ≤ keep) :
+    (st.crashAppend ref body keep np true).fetch ref = .ok body.length body ∧
+    (∀ r, r ≠ ref → (st.crashAppend ref body keep np true).fetch r = st.fetch r) ∧
+    InBounds (st.crashAppend ref body keep np true) := by
+  obtain ⟨init, last, hp⟩ := exists_concat st.packs hne
+  have hpk := crashAppend_packs st init last hp ref body keep np true
+  have hidx : (st.crashAppend ref body keep np true).index =
+      st.index.set ref ⟨init.length, last.length + (encodeHeader ref body.length).length, body.length⟩ := by
+    simp [Store.crashAppend, hp]
+  have htake : (appendBytes ref body).take keep = encodeHeader ref body.length ++ body := by
+    rw [List.take_of_length_le hk]; rfl
+  have hnew : (st.crashAppend ref body keep np true).packs[init.length]? =
+      some (last ++ (encodeHeader ref body.length ++ body)) := by
+    rw [hpk, htake, List.append_assoc, List.getElem?_append_right (Nat.le_refl _)]
+    simp
+  have hg := crashAppend_grows st hne ref body keep np true
+  refine ⟨?_, ?_, ?_⟩
+  · unfold Store.fetch
+    rw [hidx, Index.get_set_same]
+    simp only [hnew]
+    have := extent_exact (last ++ encodeHeader ref body.length) body []
+    simp only [List.append_nil, List.length_append, List.append_assoc] at this
+    rw [this]
+  · intro r hr
+    exact fetch_of_grows st _ r (by rw [hidx, Index.get_set_other _ _ _ _ hr]) hg hb
+  · intro k m hm
+    rw [hidx] at hm
+    by_cases hkr : k = ref
+    · subst hkr
+      rw [Index.get_set_same] at hm
+      injection hm with hm; subst hm
+      exact ⟨_, hnew, by simp; omega⟩
+    · rw [Index.get_set_other _ _ _ _ hkr] at hm
+      obtain ⟨p, hp', hle⟩ := hb k m hm
+      obtain ⟨x, hx⟩ := hg _ _ hp'
+      exact ⟨p ++ x, hx, by simp; omega⟩
+
+/-- **every crash instant of an append**, for every effect order satisfying `appSafe` (in particular the
+regenerated one): take any prefix of the effects, any number `j` of added bytes between what is
+synced and what is written; in the resulting on-disk state every other blob is served as before, the
+new blob is either served exactly as before the append (absent, for a new blob) or complete – and it
+is complete whenever the row is there; nothing is ever served short -/
+theorem C03_append_crash_states (effs : List Eff) (h : appSafe 0 false effs = true)
+    (st : Store) (hne : st.packs ≠ []) (hb : InBounds st) (ref body : Bytes) (k j : Nat) (np : Bool)
+    (hj1 : (appRun (encodeHeader ref body.length).length body.length (effs.take k)).synced ≤ j)
+    (_hj2 : j ≤ (appRun (encodeHeader ref body.length).length body.length (effs.take k)).written) :
+    let row := (appRun (encodeHeader ref body.length).length body.length (effs.take k)).row
+    let st' := st.crashAppend ref body j np row
+    (∀ r, r ≠ ref → st'.fetch r = st.fetch r) ∧
+    (st'.fetch ref = st.fetch ref ∨ st'.fetch ref = .ok body.length body) ∧
+    (row = true → st'.fetch ref = .ok body.length body) ∧
+    InBounds st' ∧ (∀ r n b, st'.fetch r = .ok n b → b.length = n) := by
+  intro row st'
+  obtain ⟨hrow, _⟩ := C03_append_row_only_after_sync effs h (encodeHeader ref body.length).length body.length k
+  cases hr : row with
+  | false =>
+    have e : st' = st.crashAppend ref body j np false := by simp [st', hr]
+    obtain ⟨_, h2, _, h4⟩ := C03_index_intact_crash_safe st hne hb ref body j np
+    rw [e]
+    exact ⟨fun r _ => h2 r, Or.inl (h2 ref), fun hc => (by cases hc), h4, fun r n b hf => C03_fetch_full_size _ h4 r n b hf⟩
+  | true =>
+    have e : st' = st.crashAppend ref body j np true := by simp [st', hr]
+    have hs := (hrow hr).1
+    have hk : (appendBytes ref body).length ≤ j := by
+      simp only [appendBytes, List.length_append]; omega
+    obtain ⟨h1, h2, h3⟩ := C03_index_row_written st hne hb ref body j np hk
+    rw [e]
+    exact ⟨h2, Or.inr h1, fun _ => h1, h3, fun r n b hf => C03_fetch_full_size _ h3 r n b hf⟩
+
+example : InBounds (Store.init 0) ∧ (Store.init 0).packs ≠ [] := by
+  refine ⟨?_, by decide⟩
+  intro r m h; simp [Store.init, Index.get] at h
+
+/-- the completed append is one of these states, so `InBounds` is an invariant of receive histories -/
+theorem C03_append_preserves_inBounds (st : Store) (hne : st.packs ≠ []) (hb : InBounds st) (ref body : Bytes) :
+    InBounds (st.append ref body) ∧ (st.append ref body).fetch ref = .ok body.length body ∧
+    (st.append ref body).packs ≠ [] := by
+  rw [append_eq_crashAppend]
+  obtain ⟨h1, _, h3⟩ := C03_index_row_written st hne hb ref body _ _ (Nat.le_refl _)
+  refine ⟨h3, h1, ?_⟩
+  obtain ⟨init, last, hp⟩ := exists_concat st.packs hne
+  rw [crashAppend_packs st init last hp]
+  simp
+
+/-! ## crash inside a removal -/
+
+/-- obligations on the regenerated orders of `(*storage).delete` and `RemoveBlobs`: nothing in them is
+synced (so, in the crash model of the property, every subset of {header rewritten, body zeroed, row
+deleted} can be what is on disk), and even in program order the pack rewrite (`s.delete`) comes
+before the commit of the row deletions – the state "bytes zeroed, row still there" is a plain
+prefix of the removal -/
+theorem C03_gen_delete_effects :
+    (Gen.dpDeleteEffects.map (·.e)).contains .sync = false ∧
+    (Gen.dpRemoveEffects.map (·.e)).contains .sync = false ∧
+    Gen.dpDeleteEffects.map (·.e) = [.writeAt, .punchHole, .seek, .copy] ∧
+    Gen.dpRemoveEffects.map (·.e) = [.indexDelete, .writeAt, .commit] := by decide
+
+/-- the pack file after the part of `delete` given by (`hdr`, `bodyZ`), for a record in the middle of it -/
+theorem C03_delete_pack_states (st : Store) (pre post name dg body : Bytes) (f : Nat)
+    (h1 : 45 ∉ name) (h2 : 32 ∉ dg)
+    (hpack : st.packs[f]? = some (pre ++ encodeHeader (name ++ 45 :: dg) body.length ++ (body ++ post)))
+    (hrow : st.index.get (name ++ 45 :: dg) =
+      some ⟨f, pre.length + (encodeHeader (name ++ 45 :: dg) body.length).length, body.length⟩)
+    (hdr bodyZ : Bool) :
+    (st.deletePack (name ++ 45 :: dg) hdr bodyZ)[f]? =
+      some (pre ++ (if hdr then encodeHeader (delRef name dg) body.length else encodeHeader (name ++ 45 :: dg) body.length)
+        ++ ((if bodyZ then List.replicate body.length 0 else body) ++ post)) ∧
+    ∀ j, j ≠ f → (st.deletePack (name ++ 45 :: dg) hdr bodyZ)[j]? = st.packs[j]? := by
+  unfold Store.deletePack
+  simp only [hrow, hpack, deleteHeaderAt_record pre post name dg body f h1 h2]
+  constructor
+  · rw [getElem?_modifyNth]
+    simp only [if_true, hpack, Option.map_some]
+    have hlen : (encodeHeader (delRef name dg) body.length).length =
+        (encodeHeader (name ++ 45 :: dg) body.length).length := by
+      simp [encodeHeader, delRef]
+    cases hdr <;> cases bodyZ
+    · simp
+    · have := zeroExtent_record (pre ++ encodeHeader (name ++ 45 :: dg) body.length) body post
+      simp only [List.length_append, List.append_assoc] at this
+      simp [this]
+    · simp
+    · have := zeroExtent_record (pre ++ encodeHeader (delRef name dg) body.length) body post
+      simp only [List.length_append, hlen, List.append_assoc] at this
+      simp [this]
+  · intro j hj
+    rw [getElem?_modifyNth]
+    simp [hj]
+
+/-- **crash states of a removal, the part that holds**: in every subset state of {header rewritten, body
+zeroed, row deleted} in which the body is zeroed only if the row is gone, the blob being removed is
+either served complete or not at all; and in ALL eight states every other blob whose bytes do not
+overlap the record is served as before -/
+theorem C03_delete_crash_states_partial (st : Store) (pre post name dg body : Bytes) (f : Nat)
+    (h1 : 45 ∉ name) (h2 : 32 ∉ dg)
+    (hpack : st.packs[f]? = some (pre ++ encodeHeader (name ++ 45 :: dg) body.length ++ (body ++ post)))
+    (hrow : st.index.get (name ++ 45 :: dg) =
+      some ⟨f, pre.length + (encodeHeader (name ++ 45 :: dg) body.length).length, body.length⟩)
+    (hdr bodyZ rowDel : Bool) :
+    ((bodyZ = true → rowDel = true) →
+      (st.crashDelete (name ++ 45 :: dg) hdr bodyZ rowDel).fetch (name ++ 45 :: dg) = .notExist ∨
+      (st.crashDelete (name ++ 45 :: dg) hdr bodyZ rowDel).fetch (name ++ 45 :: dg) = .ok body.length body) ∧
+    (∀ r m, r ≠ name ++ 45 :: dg → st.index.get r = some m →
+      (m.file ≠ f ∨ m.offset + m.size ≤ pre.length ∨
+        pre.length + (encodeHeader (name ++ 45 :: dg) body.length ++ body).length ≤ m.offset) →
+      (st.crashDelete (name ++ 45 :: dg) hdr bodyZ rowDel).fetch r = st.fetch r) := by
+  obtain ⟨hp1, hp2⟩ := C03_delete_pack_states st pre post name dg body f h1 h2 hpack hrow hdr bodyZ
+  have hlen : (encodeHeader (delRef name dg) body.length).length =
+      (encodeHeader (name ++ 45 :: dg) body.length).length := by
+    simp [encodeHeader, delRef]
+  constructor
+  · intro hg
+    cases rowDel with
+    | true =>
+      left
+      simp [Store.fetch, Store.crashDelete, Index.get_del_same]
+    | false =>
+      right
+      have hb : bodyZ = false := by cases bodyZ <;> simp_all
+      subst hb
+      simp only [Store.fetch, Store.crashDelete, hrow, Bool.false_eq_true, if_false, hp1]
+      congr 1
+      cases hdr
+      · have := extent_exact (pre ++ encodeHeader (name ++ 45 :: dg) body.length) body post
+        simp only [List.length_append, List.append_assoc] at this ⊢
+        exact this
+      · have := extent_exact (pre ++ encodeHeader (delRef name dg) body.length) body post
+        simp only [List.length_append, List.append_assoc, hlen] at this ⊢
+        exact this
+  · intro r m hr hm hdis
+    have hidx : (st.crashDelete (name ++ 45 :: dg) hdr bodyZ rowDel).index.get r = some m := by
+      cases rowDel
+      · simpa [Store.crashDelete] using hm
+      · simp only [Store.crashDelete, if_true]
+        rw [Index.get_del_other _ _ _ hr]; exact hm
+    simp only [Store.fetch, hidx, hm]
+    by_cases hf : m.file = f
+    · have hdis' : m.offset + m.size ≤ pre.length ∨
+          pre.length + (encodeHeader (name ++ 45 :: dg) body.length ++ body).length ≤ m.offset := by
+        rcases hdis with h | h
+        · exact absurd hf h
+        · exact h
+      simp only [Store.crashDelete, hf, hp1, hpack]
+      congr 1
+      have e1 : ∀ (H B : Bytes), pre ++ H ++ (B ++ post) = pre ++ (H ++ B) ++ post := by
+        intro H B; simp
+      rw [e1, e1]
+      apply extent_frame
+      · cases hdr <;> cases bodyZ <;> simp [hlen]
+      · cases hdr <;> cases bodyZ <;> simp [hlen] <;> simpa using hdis'
+    · simp only [Store.crashDelete, hp2 m.file hf]
+
+/-- finding F-C03-3: header rewritten, body zeroed, row still there (the removal crashed before
+`CommitBatch`): Fetch serves three zero bytes as the blob `b-c`, without error -/
+theorem C03_delete_crash_states_counterexample :
+    let st : Store := ⟨[encodeRecord ⟨[98, 45, 99], [1, 2, 3]⟩], [([98, 45, 99], ⟨0, 7, 3⟩)], 1000⟩
+    st.fetch [98, 45, 99] = .ok 3 [1, 2, 3] ∧
+    (st.crashDelete [98, 45, 99] true true false).fetch [98, 45, 99] = .ok 3 [0, 0, 0] ∧
+    (st.crashDelete [98, 45, 99] true true false).packs = [encodeRecord ⟨[120, 45, 48], [0, 0, 0]⟩] := by
+  decide
+
+/-- the completed removal (`RemoveBlobs`) of that store: the row is gone and the record has the deleted
+form, which the walker skips -/
+example :
+    let st : Store := ⟨[encodeRecord ⟨[98, 45, 99], [1, 2, 3]⟩], [([98, 45, 99], ⟨0, 7, 3⟩)], 1000⟩
+    (st.remove [[98, 45, 99]]).fetch [98, 45, 99] = .notExist ∧
+    walkPack (fun _ => true) true ((st.remove [[98, 45, 99]]).packs.headD []) = ([⟨none, 7, 3⟩], none) := by
+  decide
+
 end Pk.Pack
